@@ -1,23 +1,111 @@
+"""Harness-side stand-ins that keep values symbolic under CrossHair (DESIGN.md section 3, E4).  Each is validated against the real
+thing on concrete inputs by engine/selftest.py."""
 import io
+import struct
+
+
 class SymFile(io.BufferedIOBase):
-    """Pure-python file over a bytes-like (possibly symbolic) sequence."""
+    """Pure-Python file over a bytes-like (possibly symbolic) sequence; io.BytesIO is C and would realize its content."""
     def __init__(self, data):
         self._d = data
         self._p = 0
+        self.reads = []       # (start, stop) of every read, for 'touches only' obligations
+
     def read(self, n=-1):
         if n is None or n < 0:
             r = self._d[self._p:]
+            self.reads.append((self._p, len(self._d)))
             self._p = len(self._d)
             return r
         r = self._d[self._p:self._p + n]
+        if len(r):
+            self.reads.append((self._p, self._p + len(r)))
         self._p += len(r)
         return r
+
     def seek(self, off, whence=0):
-        if whence == 0: self._p = off
-        elif whence == 1: self._p += off
-        else: self._p = len(self._d) + off
+        if whence == 0:
+            self._p = off
+        elif whence == 1:
+            self._p += off
+        else:
+            self._p = len(self._d) + off
         return self._p
-    def tell(self): return self._p
-    def readable(self): return True
-    def seekable(self): return True
-    def close(self): pass
+
+    def tell(self):
+        return self._p
+
+    def readable(self):
+        return True
+
+    def seekable(self):
+        return True
+
+    def writable(self):
+        return False
+
+    def close(self):
+        pass
+
+    @property
+    def closed(self):
+        return False
+
+    def fileno(self):
+        raise OSError('SymFile has no fileno')
+
+
+class SymWFile(io.BufferedIOBase):
+    """Write side: accumulates the written pieces; getvalue() joins them."""
+    def __init__(self):
+        self._parts = []
+        self._n = 0
+
+    def write(self, b):
+        self._parts.append(b)
+        self._n += len(b)
+        return len(b)
+
+    def tell(self):
+        return self._n
+
+    def getvalue(self):
+        out = b''
+        for p in self._parts:
+            out = out + p
+        return out
+
+    def writable(self):
+        return True
+
+    def flush(self):
+        pass
+
+    def close(self):
+        pass
+
+
+class PyStruct:
+    """struct.Struct stand-in that goes through the module-level struct functions, which CrossHair models symbolically."""
+    def __init__(self, fmt):
+        self.format = fmt
+        self.size = struct.calcsize(fmt)
+
+    def unpack(self, b):
+        return struct.unpack(self.format, b)
+
+    def unpack_from(self, b, offset=0):
+        return struct.unpack(self.format, b[offset:offset + self.size])
+
+    def pack(self, *args):
+        return struct.pack(self.format, *args)
+
+
+def shim_structs(module):
+    """Replace every module-level struct.Struct attribute of `module` by a PyStruct of the same format."""
+    done = []
+    for k, v in list(vars(module).items()):
+        if isinstance(v, struct.Struct):
+            setattr(module, k, PyStruct(v.format))
+            done.append(k)
+    return done
